@@ -162,4 +162,12 @@ def handleReg (args : List String) : String :=
     r.getD "bad-input"
   | _ => "bad-arity"
 
+def handleUniq (args : List String) : String :=
+  match args with
+  | [vs] =>
+    match valsOf vs with
+    | some l => showList "," ((uniqueAdds [] l).2.map (fun r => match r with | .ok => "ok" | .dup => "E" | .missing => "M"))
+    | none => "bad-input"
+  | _ => "bad-arity"
+
 end Andes.Registry
